@@ -344,11 +344,11 @@ def many_actor_programs(draw):
     has more than two candidates per event with >= 4 actors.  May deadlock: the caller filters with the reference semantics."""
     nact = draw(st.sampled_from([4, 4, 4, 5]))
     nsem = draw(st.sampled_from([1, 2, 2]))
-    nmut = draw(st.sampled_from([0, 1, 1, 2]))
+    nmut = draw(st.sampled_from([0, 0, 1, 1, 2]))
     objects = {"sem": [draw(st.sampled_from([0, 0, 1])) for _ in range(nsem)]}
     if nmut:
         objects["mutex"] = [{"recursive": False} for _ in range(nmut)]
-    kinds = ["rel", "rel", "acq", "acq_rel", "rel_rel"] + (["cs", "try", "cs_rel", "cs_cs"] if nmut else [])
+    kinds = ["rel", "rel", "rel", "rel", "acq", "acq", "acq", "acq_rel", "acq_rel", "rel_rel"] + (["try", "try", "cs", "cs_rel"] if nmut else [])
     ops = []
     for a in range(nact):
         k = draw(st.sampled_from(kinds))
@@ -371,4 +371,10 @@ def many_actor_programs(draw):
         else:
             l = [["lock", m], ["unlock", m], ["lock", m2], ["unlock", m2]]
         ops.append(l)
+    # enough tokens for every acquire (most of these programs would otherwise deadlock and be filtered out)
+    for x in range(nsem):
+        acq = sum(1 for l in ops for o in l if o == ["acquire", x])
+        rel = sum(1 for l in ops for o in l if o == ["release", x])
+        if acq > objects["sem"][x] + rel:
+            objects["sem"][x] = acq - rel
     return _scenario(objects, ops)
